@@ -192,6 +192,16 @@ add("C18", "open", "reject-miss:duplicate-block:direct-render",
      {"kind": "pinned", "templates": {"t0": {"extends": None, "items": [["block", "b", False, [["text", "<1>"]], None], ["block", "b", False, [["text", "<2>"]], None]]}}, "leaf": "t0", "data": {}, "async": True},
      {"kind": "pinned", "templates": {"t0": {"extends": None, "items": [["for", 0, [["block", "a", True, [], None]]], ["block", "a", False, [], None]]}}, "leaf": "t0", "data": {}, "async": False}])
 
+# ----------------------------------------------------------------------------- C20 fixed
+def c20(src, extra=True):
+    return {"kind": "malformed", "source": src, "extra": extra}
+
+
+add("C20", "fixed", "error-position:negative-index:eof:LiquidSyntaxError",
+    "syntax errors detected at the end of an expression or of the template ('expected tag endif, found end of expression', 'expected a primitive expression, found end of expression', "
+    "'missing or unexpected path segment') carried the shared end-of-stream token with index -1 and an empty source, so they had no line or column",
+    [c20("a\n{% if x %}"), c20("{{ a | }}"), c20("x\n{% assign x = %}"), c20("{{  }}"), c20("{% liquid\nif x\n%}"), c20("{{ a[ }}"), c20("{% for i in (1..3) %}{% if a %}\n")], "16fc7c4")
+
 if __name__ == "__main__":
     # further entries are appended by tools/mkfindings.py from triaged replay files and kept in findings_extra.json
     extra_path = os.path.join(VERIF, "tools", "findings_extra.json")
